@@ -455,6 +455,9 @@ def _multiindex(chk):
                 for stt in walk_no_nested(inv.node)) or any(p.has_op("method", "assign_coords") for r in rets for p in invf.paths(r.value, spine_only=True))
     chk.check(restored and wrote, "MIRROR.state.multiindex.restore", inv, rets[0] if rets else inv.node, construct="inverse re-attaches the labels and rebuilds the MultiIndex (set_index)",
               why="the inverse map no longer " + ("rebuilds the MultiIndex from the restored labels" if wrote else "re-attaches the remembered labels") + ": results come back with a flat / positional index")
+    # the labels also survive the serialisation round trip that compute() / load() perform (shared with C13)
+    from . import c13 as _c13
+    _c13._mi_levels(chk, rule="MIRROR.state.multiindex.levels")
     # the coordinates remembered at fit and those captured by transform live in two distinct containers
     from .c14 import alias_sites
     al = [(fn, st, t, a) for fn, st, t, a in alias_sites(pm) if fn.cls is not None and mc in fn.cls.mro and {t, a} & {"coords_from_fit", "coords_from_transform"}]
